@@ -356,6 +356,9 @@ func outLast() any                               { return nil }
 //@ loop 1 invariant [C08 C14] earlier-subscripts-emitted: is[[]any](value) && ncalls(exec.execSubscript) >= 1 && callret[int](exec.execSubscript, 0) <= callret[int](exec.execSubscript, 1) && array[callret[int](exec.execSubscript, 1)] != nil ==> ncalls(exec.executeNextItem) >= 1 && callarg[any](exec.executeNextItem, "value") == array[callret[int](exec.execSubscript, 1)]
 //@ atcall execSubscript assert [C08 C14] items-before-next-subscript: is[[]any](value) && ncalls(exec.execSubscript) >= 1 && callret[int](exec.execSubscript, 0) <= callret[int](exec.execSubscript, 1) && array[callret[int](exec.execSubscript, 1)] != nil ==> ncalls(exec.executeNextItem) >= 1 && callarg[any](exec.executeNextItem, "value") == array[callret[int](exec.execSubscript, 1)]
 //@ atcall executeNextItem assert [C14] element: arg_value == array[index] && arg_found == found
+//@ loop 1 invariant [C14 C09 C06] ok-comes-from-the-continuation: res == statusOK ==> ncalls(exec.executeNextItem) >= 1
+//@ loop 2 invariant [C14 C09 C06] ok-comes-from-the-continuation: res == statusOK ==> ncalls(exec.executeNextItem) >= 1
+//@ ensures [C14 C09 C06 C01] selected-elements-go-on-unless-the-path-ends-here: is[[]any](value) && r0 == statusOK && !(node.Next() == nil && found == nil) ==> ncalls(exec.executeNextItem) >= 1
 //@ ensures [C06] exists-mode-result: found == nil ==> r0 == statusFailed || r0 == statusNotFound || (r0 == statusOK && r1 == nil)
 //@ ensures [C07 C14] strict-nonarray: !is[[]any](value) && !exec.path.IsLax() ==> r0 == statusFailed && (r1 == nil || errIs(r1, ErrVerbose)) && ncalls(exec.executeNextItem) == 0
 
@@ -1083,6 +1086,7 @@ func isUnknownSpec(a predOutcome) predOutcome {
 //@ loop 1 invariant [C16] every-member: ncalls(exec.executeNextItem) == loopEntry(ncalls(exec.executeNextItem)) + rangeindex + 1
 //@ atcall executeNextItem assert [C16] triple: arg_found == found && is[map[string]any](arg_value) && as[map[string]any](arg_value)["id"] == any(id) && as[map[string]any](arg_value)["key"] == any(k) && fresh(as[map[string]any](arg_value))
 //@ atcall executeNextItem assert [C16] fresh-base: exec.baseObject.id == exec.lastGeneratedObjectID
+//@ ensures [C16 C09 C06 C01] pairs-go-on-unless-the-path-ends-here: is[map[string]any](value) && r0 == statusOK && !(node.Next() == nil && found == nil) ==> ncalls(exec.executeNextItem) >= 1
 //@ ensures [C16] non-object: !is[map[string]any](value) && !(is[[]any](value) && unwrap) ==> r0 == statusFailed && ncalls(exec.executeNextItem) == 0 && (r1 == nil || errIs(r1, ErrVerbose))
 //@ ensures [C06 C16] not-found-means-every-member-tried: is[map[string]any](value) && r0 == statusNotFound && r1 == nil && !(node.Next() == nil && found == nil) ==> ncalls(exec.executeNextItem) == len(as[map[string]any](value))
 //@ ensures [C16] empty: is[map[string]any](value) && len(as[map[string]any](value)) == 0 ==> r0 == statusNotFound && r1 == nil && ncalls(exec.executeNextItem) == 0
